@@ -432,7 +432,7 @@ func ruleArrBound(c *Ctx) {
 		if st, ok := r.(*ssa.Store); ok && st.Val == ssa.Value(grow) {
 			// stored through the header pointer the item addresses are computed from
 			hdr := accessPath(st.Addr)
-			if hdr != "" && strings.Contains(accessPath(rd.Call.Args[1]), hdr+"->Data") {
+			if hdr != "" && exprMentions(rd.Call.Args[1], hdr+"->Data", 0) {
 				stored = true
 			}
 		}
@@ -684,4 +684,32 @@ func ruleTSNoDur(c *Ctx) {
 		}
 		c.Check(bad == "", ct.Name+"."+m+"/no-duration", P.pos(fn.Pos()), "no time.Duration value is involved", "a time.Duration is computed at "+bad+": dates more than 292 years from 1970 overflow or saturate and decode to a different day")
 	}
+}
+
+// exprMentions: some load in the expression tree of v has an access path
+// containing sub (looks through conversions, arithmetic and unsafe.Add).
+func exprMentions(v ssa.Value, sub string, d int) bool {
+	if d > 10 || v == nil {
+		return false
+	}
+	if strings.Contains(accessPath(v), sub) {
+		return true
+	}
+	switch x := v.(type) {
+	case *ssa.Convert:
+		return exprMentions(x.X, sub, d+1)
+	case *ssa.ChangeType:
+		return exprMentions(x.X, sub, d+1)
+	case *ssa.BinOp:
+		return exprMentions(x.X, sub, d+1) || exprMentions(x.Y, sub, d+1)
+	case *ssa.Call:
+		if _, ok := x.Call.Value.(*ssa.Builtin); ok {
+			for _, a := range x.Call.Args {
+				if exprMentions(a, sub, d+1) {
+					return true
+				}
+			}
+		}
+	}
+	return false
 }
